@@ -132,10 +132,10 @@ Proof.
     destruct (proj1 LY x Lx) as (NDx & Ltx & Lenx).
     rewrite (read_bits_ext _ (write_bits a0 (var_bits ly x) (encode (var_type ly x) v))).
     + rewrite read_write.
-      * rewrite Lenx. reflexivity.
+      * f_equal. exact Lenx.
       * exact NDx.
       * intros p Hp. rewrite La. apply Ltx, Hp.
-      * rewrite Lenx. apply encode_length, Rx.
+      * apply Nat.le_trans with (nbits (var_type ly x)); [apply Nat.eq_le_incl, Lenx|apply encode_length, Rx].
     + intros p Hp. apply assign_fold_other. intros [x' v'] Hxv Hp'. cbn [fst] in Hp'.
       destruct (SO x' v' (or_intror Hxv)) as (Lx' & _ & _).
       assert (x = x') by (apply (proj2 LY x x' p); assumption). subst x'.
@@ -156,11 +156,26 @@ Proof.
   induction gs as [|e gs IH]; intros a b y ND Ly; [reflexivity|].
   cbn [map] in ND. inversion ND as [|? ? He ND']; subst.
   change (app_from (e :: gs) a b) with (app_from gs a (upd b (fst e) (fst (snd e) a))).
-  cbn [find]. destruct (Nat.eqb (fst e) y) eqn:E.
+  cbn [find].
+  match goal with |- context [if ?c then _ else _] => destruct c eqn:E end.
   - apply Nat.eqb_eq in E. subst y. rewrite app_from_upd by exact He.
-    apply get_upd_same. exact Ly.
+    apply get_upd_same. destruct (app_from_agree gs a b) as [Lab _]. rewrite Lab. exact Ly.
   - apply Nat.eqb_neq in E. rewrite IH by (try rewrite upd_length; assumption).
-    destruct (find _ gs); [reflexivity|]. apply get_upd_other. exact E.
+    match goal with |- context [match ?c with Some _ => _ | None => _ end] => destruct c end;
+      [reflexivity|].
+    apply get_upd_other. exact E.
+Qed.
+
+Lemma find_bit_compute (gs : list (var * (pred * pred))) a p :
+  find_bit (compute_bdds gs a) p
+  = match find (fun e => Nat.eqb (fst e) p) gs with
+    | Some e => fst (snd e) a
+    | None => false
+    end.
+Proof.
+  unfold find_bit, compute_bdds. induction gs as [|e gs IH]; [reflexivity|].
+  cbn [map find fst snd]. unfold var, pred, asg in *.
+  destruct (Nat.eqb (fst e) p) eqn:E; [reflexivity|exact IH].
 Qed.
 
 Theorem step_correct state :
@@ -209,10 +224,10 @@ Proof.
     fold a. unfold a'. rewrite apply_functions_app_from.
     destruct (proj1 LY x (OV x Hx)) as (_ & Ltx & _).
     rewrite get_app_from by (try rewrite La; auto).
-    unfold find_bit, compute_bdds.
-    induction fs as [|e gs IHg]; cbn [map find fst snd].
-    + symmetry. apply (Out0 x p Hx Hp).
-    + destruct (Nat.eqb (fst e) p); [reflexivity|]. apply IHg.
+    rewrite find_bit_compute.
+    match goal with |- context [match ?c with Some _ => _ | None => _ end] => destruct c end;
+      [reflexivity|].
+    symmetry. apply (Out0 x p Hx Hp).
 Qed.
 
 (* the same through the emitted program: if the references in [roots] denote
@@ -220,20 +235,17 @@ Qed.
    same assignment *)
 Theorem step_prog_correct (d : dag) (nlev : nat) (keys : list Z) state :
   wf_dag d nlev = true ->
-  length keys = length fs ->
   (forall k, In k keys -> root_ok_p d nlev k) ->
-  (forall a, map (fun k => ref_val (S nlev) d a k) keys = map (fun e => fst (snd e) a) fs) ->
+  (forall a, Forall2 (fun k e => ref_val (S nlev) d a k = fst (snd e) a) keys fs) ->
   step_prog n ly out_vars nlev d (combine (map fst fs) keys) state
   = Some (step n restrict ly out_vars r order state).
 Proof.
-  intros WF Len RO Den. unfold step_prog, step_prog_with, step, step_with.
+  intros WF RO Den. unfold step_prog, step_prog_with, step, step_with.
   set (a := assign_bitvectors n ly state).
   rewrite (straightline_correct d nlev WF a).
-  - f_equal. f_equal. unfold compute_bdds. specialize (Den a). unfold DagProofs.val.
-    revert Len Den. generalize fs. intro gs. revert keys RO.
-    induction gs as [|e gs IH]; intros [|k keys] RO Len Den; try discriminate; [reflexivity|].
-    cbn [map combine fst snd] in *. injection Den as D1 D2. injection Len as Len.
-    rewrite D1. f_equal. apply IH; auto. intros k' Hk'. apply RO. right. exact Hk'.
+  - f_equal. f_equal. unfold compute_bdds, DagProofs.val. specialize (Den a). clear RO.
+    induction Den as [|k e ks gs Hke _ IH]; [reflexivity|].
+    cbn [map combine fst snd]. rewrite Hke. f_equal. exact IH.
   - intros [y k] Hr. apply in_combine_r in Hr. apply RO, Hr.
 Qed.
 
